@@ -16,6 +16,7 @@ the injected ``T`` list.  Lines are pairs [mark, text]:
 The de-prompted program line is always ``text``.
 """
 import ast
+import io
 
 from vp.ref import pyexec
 
@@ -29,6 +30,7 @@ SIMPLE_KINDS = [
     'asyncwith', 'aug', 'ann', 'walrus', 'star', 'imp', 'assert', 'del', 'global', 'match', 'dirstr',
     'vallist', 'valdict', 'valcall', 'valawait', 'valsemi', 'valtuple_ml', 'valbytes', 'printblank',
     'tstr_blank', 'tstr_col0_dq', 'classdeco', 'tryfinally', 'forelse_print', 'genexpr', 'comment_after',
+    'stdout_ref', 'stdout_write_bound',
 ]
 
 
@@ -140,6 +142,12 @@ def make_group(k, kind):
         L = ['def gg{}():'.format(k), '    global G{}'.format(k), '    G{0} = {0}'.format(k), '    ' + t, 'gg{}()'.format(k)]
     elif kind == 'match':
         L = ['match {}:'.format(k), '    case {}:'.format(k), '        ' + t, '    case _:', '        pass']
+    elif kind == 'stdout_ref':
+        # the first group of this kind keeps a reference to sys.stdout (hidden in a function default, so that the
+        # bindings stay comparable); every group of this kind writes through that - possibly stale - reference
+        L = ['import sys', "W = globals().get('W') or (lambda s=sys.stdout: s)", "_ = W().write('w{}\\n')".format(k), t]
+    elif kind == 'stdout_write_bound':
+        L = ['import sys', "BW = globals().get('BW') or (lambda w=sys.stdout.write: w)", "_ = BW()('bw{}\\n')".format(k), t]
     elif kind == 'genexpr':
         L = ['v{0} = sum(x for x in [1, 2, {0}])'.format(k), t]
     # ---- value-bearing final expressions
@@ -243,6 +251,7 @@ def gen_program(D, max_groups=8, kinds=None, want_bias=2):
     example_indent = D.choice(['', '    ', ''])
     # reference execution, group by group, to know the true outputs
     ns = {'T': []}
+    stream = io.StringIO()     # one sys.stdout for the whole reference program
     since = ''
     meta = []
     doc = []      # (line, label, gi)
@@ -261,7 +270,7 @@ def gen_program(D, max_groups=8, kinds=None, want_bias=2):
             if new != gind:
                 feats.add('indent_change:' + ('shallower' if len(new) < len(gind) else 'deeper'))
                 gind = new
-        out, value, is_expr, exc = pyexec.exec_unit(group_source(g), ns)
+        out, value, is_expr, exc = pyexec.exec_unit(group_source(g), ns, stream=stream)
         if exc is not None:
             raise AssertionError('generator bug: group {} raised {!r}'.format(g['kind'], exc))
         valued = is_expr and value is not None
